@@ -45,6 +45,20 @@ CHECKS = {
          "of TLC: exhaustive over the stated grid (quick: strength-2 array for the 5^4 octet product; thorough: full product), not all inputs. "
          "Reserved bits ignored and trailing octets of header-only PDUs kept as payload, in spec and code alike.",
     technique="TLA+ codec spec (APCI.tla) evaluated by TLC over the case grid; per-case replay into the real codec; TLC validation of recorded encode/decode calls"),
+ "C08": dict(
+    category="model_checking",
+    text="NPCI.tla transcribes clause 6.2 (control octet, DNET/DLEN/DADR, SNET/SLEN/SADR, hop count, message type, vendor id) and the bodies "
+         "of the twelve network-layer messages (6.4) as Enc/Dec operators; TLC checks round trip, header length, exactness Enc(Dec(o)) = o, "
+         "decoder totality and refusal of forbidden headers (version != 1, broadcast / zero-length / FFFF source, truncation at every "
+         "position) over all 256 control octets x address shapes x hop {0,1,254,255} x all 256 message types, network lists 0..20, routing "
+         "tables 0..5 x port-info 0/1/255, all strings <= 2 (thorough: all 16.7 M strings <= 3 with a wrong version, a class alphabet to 3). "
+         "Every case is run through the real NPDU / message classes both ways and compared; random and mutated NPDUs and random strings are "
+         "recorded and validated by TLC (Trace_NPCI.tla).",
+    design_ref="DESIGN.md 5 (C07-C09)",
+    note="Trusted: TLC, my transcription of clauses 6.2/6.4 in NPCI.tla (no copy of the standard offline), the case renderer. Function-"
+         "evaluation use of TLC: exhaustive over the stated grid. Security message types are header-only. DNET=FFFF with DLEN>0, trailing "
+         "octets after fixed-size bodies and reserved control bits are outside the property's list and only monitored for 'no other exception'.",
+    technique="TLA+ codec spec (NPCI.tla) evaluated by TLC over the case grid; per-case replay into the real codec; TLC validation of recorded encode/decode calls"),
  "C09": dict(
     category="model_checking",
     text="BVLL.tla transcribes Annex J (header 0x81 / function / length = total octets, the twelve functions) as Enc/Dec operators; TLC "
@@ -58,6 +72,33 @@ CHECKS = {
          "are position coded. Function-evaluation use of TLC (pure codec): exhaustive over the stated boundary grid, not over all inputs. "
          "Trailing octets after fixed-length functions are tolerated by the code (named deviation, outside the property).",
     technique="TLA+ codec spec (BVLL.tla) evaluated by TLC over the case grid; per-case replay into the real codec; TLC validation of recorded encode/decode calls"),
+ "C11": dict(
+    category="model_checking",
+    text="TSMids.tla models invoke-ID allocation (cursor, skip-live, application-chosen IDs) and the (invoke ID, peer address) lookup of "
+         "client and server transaction tables with an adversary that delivers every reply kind from every address with every ID at every "
+         "point; TLC checks IdUniquePerPeer, ReplyMatches, LateAndForeignIgnored, NoDoubleIndication, SameIdDifferentPeersIndependent, "
+         "NewRequestIndicated exhaustively for 3 requests over 2 peers with the cursor at the wrap of a 4-value ID space. Binding: an edge "
+         "cover of TLC's graph is executed on a real StateMachineAccessPoint; random adversarial histories (1-4 peers, up to 400 steps), "
+         "40 concurrent requests with the same IDs across four peers, and >256 sequential requests with long-lived IDs the cursor must "
+         "skip are recorded with the projected tables and validated by TLC (Trace_TSMids.tla) with IdMod = 256.",
+    design_ref="DESIGN.md 5 (C11), Appendix A.2",
+    note="Trusted: TLC; harness/idsrig.py (adversary + projection). Unsegmented frames only (the lookup code is shared with segmented ones, "
+         "whose state machines are C04/C05). Exhaustive in a reduced ID space; the real modulus by trace validation.",
+    technique="TLA+ spec (TSMids.tla) + TLC exhaustive with adversarial delivery; state-graph replay; TLC trace validation of recorded real executions"),
+ "C18": dict(
+    category="model_checking",
+    text="Addr.tla defines, on notation descriptors, what each accepted notation denotes (type, network, station octets, and for IP forms "
+         "subnet / host / directed broadcast by per-octet arithmetic), the printed form, and the equivalence/hash key; TLC checks "
+         "Denotes(Print(Denotes(d))) = Denotes(d), that Equiv is an equivalence and the range refusals over all 256 stations x 12 notations, "
+         "networks at the range edges, IPv4 edge addresses x 33 masks x port boundaries, octet strings 1..7 and a pool of equivalent "
+         "spellings. Every case is rendered to a concrete str/tuple/bytes/int, parsed by the real Address and compared field by field "
+         "(IP fields also against the standard ipaddress module); print->parse, ==/!=/hash/dict/set matrices over the pool, and seeded "
+         "random spellings and junk are recorded and judged by TLC (Trace_Addr.tla, Trace_AddrPool.tla).",
+    design_ref="DESIGN.md 5 (C18)",
+    note="Trusted: TLC, Addr.tla, the ~80-line renderer/projector (text scanning itself is outside TLC's reach). Route (@) notations, "
+         "route_aware, interface names excluded. Lenient inputs that still build the number a reader would take (trailing newline, "
+         "non-ASCII digits, octal-looking octets) are recorded, not judged.",
+    technique="TLA+ denotation spec (Addr.tla) evaluated by TLC over the notation grid; per-case replay into the real parser/printer; TLC validation of recorded parses and of the equality/hash matrices"),
  "C14": dict(
     category="model_checking",
     text="TLC checks every C14 clause (fire order, FIFO among equals, never early, once per install, no fire after suspend, "
